@@ -27,6 +27,7 @@
 #include <signal.h>
 #include <stdint.h>
 #include <stdio.h>
+#include <sys/stat.h>
 #include <stdlib.h>
 #include <string.h>
 #include <sys/ioctl.h>
@@ -88,7 +89,10 @@ int main(int argc, char **argv)
 	}
 
 	const char *w = script_get(script, "wait", val, sizeof val);
-	if (w && strcmp(w, "none")) {
+	struct stat st0;
+	int stdin_is_pipe = fstat(0, &st0) == 0 && S_ISFIFO(st0.st_mode);
+	/* (waiting for the writer only means something on a pipe) */
+	if (w && strcmp(w, "none") && stdin_is_pipe) {
 		int want_hup = !strcmp(w, "hup");
 		if (!want_hup) {
 			struct pollfd pfd = { .fd = 0, .events = POLLIN };
